@@ -40,7 +40,17 @@ def derived_keys(labels):
 
 
 class StrSub(str):
-    """a label held as an instance of a str subclass (what some frameworks hand out): still a string"""
+    """text held as an instance of a str subclass whose str()/repr()/format() do NOT give the text back — what a member of
+    `class Marker(str, Enum)` is: the characters of the string are its value, str(x) is 'Marker.X'"""
+
+    def __str__(self):
+        return "StrSub." + str.__str__(self).upper()
+
+    def __repr__(self):
+        return "<StrSub %s>" % str.__repr__(self)
+
+    def __format__(self, spec):
+        return format(self.__str__(), spec)
 
 
 def safe_repr(k):
@@ -223,7 +233,7 @@ def observe(blk, labels, foreign=None):
         if kk == "idx":
             mk_keys.append([Sym("idx"), kv])
         elif kk == "label":
-            mk_keys.append([Sym("label"), lid(str(kv))])
+            mk_keys.append([Sym("label"), lid("".join(kv))])
         elif kk == "item":
             mk_keys.append([Sym("item"), pos[id(kv)]])
         elif kk == "foreign-item":
@@ -286,7 +296,7 @@ def run(ctx):
                     ctx.fail(f"{where}: out-of-range index gave {out}", rp, ident=f"{kind} out-of-range index")
                     break
             if kk == "label":
-                kv = str(kv)
+                kv = "".join(kv)          # the characters of the key (str() of a str subclass may be something else)
                 first = labels.index(kv) if kv in labels else None
                 if first is not None and out != ("item", first):
                     ctx.fail(f"{where}: lookup by label returned {out} instead of the first item with that label ({first})", rp, ident=f"{kind} label not first")
